@@ -68,6 +68,8 @@ def run(ctx):
         cases.append((name, kind, src, ml, "deterministic"))
     for name, src in G.GO_TEXTS:
         cases.append((name, "go", src, None, "gotext"))
+    for name, src in G.overload_family():
+        cases.append((name, "xgo", src, None, "overload"))
     ncorp = 0
     for pat in CORPUS_GLOBS:
         for f in sorted(glob.glob(os.path.join(vlib.REPO, pat))):
@@ -174,7 +176,8 @@ def run(ctx):
               samples=[{"name": cases[i][0], "source": cases[i][2][:600], "impl": lines[i][:600]}
                        for i in (0, len(cases) - 1, len(cases) - 2)],
               rule="%d deterministic MiniScope programs (one per declaration form, incl. the forms that violate) + %d handwritten "
-                   "Go texts + %d XGo corpus files (%s) + %d seeded random Go-compatible MiniScope programs + %d seeded random Go-compatible "
+                   "Go texts + %d XGo overload declarations (fixed enumeration: function/method/operator, named/literal/mixed candidates; no class files) "
+                   "+ %d XGo corpus files (%s) + %d seeded random Go-compatible MiniScope programs + %d seeded random Go-compatible "
                    "programs over every declaring construct (GoRich: fields, embedded fields T/*T/pkg.T/*pkg.T in type decls, literal and "
                    "parameter types, methods and receivers, params/results, interface methods, iota groups, type switch variables, "
                    "imports; oracle + go/types comparison only; generic types do not parse as XGo and are not generated); non-trivial = "
@@ -182,7 +185,7 @@ def run(ctx):
                    "the unchanged tree, explored by the deterministic set): multi-name var/const/:= specs, range/for-in "
                    "variables, blank identifiers, re-declared names in :=, local type declarations, typed `var x T = ..x..` "
                    "self reference, labels, functions/variables first referenced from an earlier body"
-                   % (len(G.deterministic()), len(G.GO_TEXTS), ncorp, ",".join(CORPUS_GLOBS), nrand, nrich),
+                   % (len(G.deterministic()), len(G.GO_TEXTS), len(G.overload_family()), ncorp, ",".join(CORPUS_GLOBS), nrand, nrich),
               origin_histogram=hist, construct_histogram=dict(sorted(shape.items())),
               declaring_construct_histogram=dict(sorted(dhist.items())),
               model_vs_impl_compared=len(impl_maps), generated_rejected=len(skipped),
